@@ -55,9 +55,10 @@ type IfaceV struct {
 }
 
 type FuncV struct {
-	fn  *ssa.Function
-	env []Value
-	bi  *ssa.Builtin
+	fn     *ssa.Function
+	env    []Value
+	bi     *ssa.Builtin
+	native func(m *Machine, args []Value) Value // engine-provided function value (e.g. the swapper of sort.Slice)
 }
 
 type MapV struct{ m *MapObj }
@@ -427,11 +428,11 @@ func (m *Machine) valuesEqual(a, b Value) *Term {
 		}
 	case FuncV:
 		y := b.(FuncV)
-		if y.fn == nil && y.bi == nil {
-			return m.st.Bool(x.fn == nil && x.bi == nil)
+		if y.fn == nil && y.bi == nil && y.native == nil {
+			return m.st.Bool(x.fn == nil && x.bi == nil && x.native == nil)
 		}
-		if x.fn == nil && x.bi == nil {
-			return m.st.Bool(y.fn == nil && y.bi == nil)
+		if x.fn == nil && x.bi == nil && x.native == nil {
+			return m.st.Bool(y.fn == nil && y.bi == nil && y.native == nil)
 		}
 	case OpaqueV:
 		y, ok := b.(OpaqueV)
